@@ -16,6 +16,7 @@
 //	dispbad <nomsg|nohdr|nodata>              Dispatch of an incomplete message               -> empty
 //	tick <ms>                                 real sleep (the de-duplication cache is wall clock) -> ok
 //	stress <seed> <goroutines> <rounds> <iters>   concurrent Register/UnRegister/Dispatch in a child process -> not compared
+//	dmut <seed> <n> <mode>                    Register/UnRegister from inside a Dispatch's walk (dmut.go) -> not compared
 //
 // m = marshalled payload in hex (`nil`: nil message, `-`: a message that marshals to zero bytes),
 // z = snappy.Encode(m) in hex (`-` when m is empty).  opts = comma list of b=<bcname> l=<logid>
@@ -1016,6 +1017,8 @@ func execStateless(line string, out *xvlib.Out, scratch string) (string, bool) {
 		return guarded(out, []string{line}, func() string { return execConc(w, line, out) }), true
 	case w[0] == "errflood" && len(w) == 2:
 		return guarded(out, []string{line}, func() string { return execErrFlood(w, line, out) }), true
+	case w[0] == "dmut" && len(w) == 4:
+		return guarded(out, []string{line}, func() string { return execDmut(w, line, out) }), true
 	}
 	return "", false
 }
@@ -1160,7 +1163,7 @@ func main() {
 		} else {
 			hangOps = append(append([]string{}, cur.ops...), line)
 		}
-		if _, stateless := map[string]bool{"crc": true, "resp": true, "vmt": true, "msg": true, "cor": true, "corv": true, "stress": true, "errflood": true}[strings.Fields(line + " ?")[0]]; stateless {
+		if _, stateless := map[string]bool{"crc": true, "resp": true, "vmt": true, "msg": true, "cor": true, "corv": true, "stress": true, "errflood": true, "dmut": true}[strings.Fields(line + " ?")[0]]; stateless {
 			hangOps = []string{line}
 		}
 		if r, ok := execStateless(line, out, args.Scratch); ok {
@@ -1541,6 +1544,11 @@ func main() {
 	// ---- 6c. messages built and decoded by many goroutines at once
 	for i := 0; i < 2; i++ {
 		run(fmt.Sprintf("conc %d 16 %d", args.Seed*7+uint64(i), map[bool]int{false: 120, true: 1500}[thorough]), false)
+	}
+
+	// ---- 6d. Register / UnRegister issued from inside a Dispatch's walk over the subscribers (deterministic interleaving)
+	for i := 0; i < map[bool]int{false: 24, true: 240}[thorough]; i++ {
+		run(fmt.Sprintf("dmut %d %d %d", args.Seed*13+uint64(i), 2+i%7, i%3), false)
 	}
 
 	// ---- 7. concurrent Register / UnRegister / Dispatch (child process; a runtime crash is caught there)
